@@ -699,7 +699,7 @@ def main_check(check, argv):
             if v["kind"] in seen or len(seen) >= 3:
                 continue
             seen.add(v["kind"])
-            minimal, execs, err = minimise(check, v, budget_s=cfg.get("shrink_s", 60))
+            minimal, execs, err = minimise(check, v, budget_s=int(os.environ.get("VERIF_SHRINK_S", cfg.get("shrink_s", 60))))
             try:
                 path, doc = write_replay(check, v, minimal, base_seed,
                                          note=f"minimised with {execs} re-executions" + (f"; {err}" if err else ""))
@@ -726,6 +726,13 @@ def main_check(check, argv):
             rc = 1
     extra["violations_reported"] = reported
     extra["known_findings"] = sorted(known_hit)
+
+    if rc == 0 and hasattr(check, "vacuity"):
+        why = check.vacuity(agg)
+        if why:
+            print("HARNESS-ERROR the batch is vacuous (no verdict): " + why, file=sys.stderr)
+            extra["vacuous"] = why
+            rc = 2
 
     for name in getattr(check, "EXPECTED_PROBES", ()):
         if agg.probes.get(name, 0) == 0 and agg.faults.get(name, 0) == 0:
